@@ -10,6 +10,7 @@ import (
 
 	"verifharness/internal/exact"
 	"verifharness/internal/gen"
+	"verifharness/internal/kf"
 	"verifharness/internal/stats"
 )
 
@@ -259,6 +260,9 @@ func (o *lineOracle) cover(i, pos, j int) bool {
 // clipped entry, so the entry's bound is propagated the same way.
 
 // The bounds themselves live in internal/exact/cliptol.go (shared with C08).
+// knownGrazeKey is the key of the known finding handled in checkLine.
+const knownGrazeKey = "open-corner-graze-point-piece"
+
 const (
 	epsF = exact.ClipEps
 	kTol = exact.ClipK
@@ -576,11 +580,39 @@ func checkLine(box orb.Bound, ls orb.LineString, open bool) (orb.MultiLineString
 		l := segTolOf(ls[i], ls[i+1]).loose()
 		small = math.Max(small, l.x+l.y)
 	}
-	// closed box only: with the open option the unchanged tree returns the one-point piece of a
-	// segment that grazes a corner mid-segment although nothing of it is strictly inside (and
-	// returns nothing when the touch is at a vertex) - reported as a finding; point-like pieces
-	// stay optional there so that the search goes on
-	exactFam := !open && exactFamily(box, ls)
+	// On the exact family nothing depends on rounding, so nothing is optional, with either option.
+	// One exception, with the open option only: known finding open-corner-graze-point-piece - a
+	// segment with both ends outside the closed box that meets it in exactly one corner point c
+	// yields the one-point piece [c c] although nothing of it is strictly inside. While that finding
+	// is listed such a piece may be present (it is then counted as excluded) or absent; any other
+	// point-like piece is a violation.
+	exactFam := exactFamily(box, ls)
+	var grazeCorners []orb.Point
+	if open && exactFam {
+		for _, r := range model(box, ls, false).Runs {
+			if r.Zero && r.SegStart == r.SegEnd && !r.StartAtVertex && !r.EndAtVertex {
+				c := orb.Point(r.Start)
+				if (c[0] == box.Min[0] || c[0] == box.Max[0]) && (c[1] == box.Min[1] || c[1] == box.Max[1]) {
+					grazeCorners = append(grazeCorners, c)
+				}
+			}
+		}
+	}
+	isGraze := func(p orb.LineString) bool {
+		for _, c := range grazeCorners {
+			all := true
+			for _, v := range p {
+				if v != c {
+					all = false
+				}
+			}
+			if all {
+				return true
+			}
+		}
+		return false
+	}
+	grazeSeen := false
 	o := &lineOracle{box: box, ls: ls, small: small, runs: res.Runs, pieces: got}
 	expLen, lenTol := 0.0, 0.0
 	for _, r := range res.Runs {
@@ -624,9 +656,18 @@ func checkLine(box orb.Bound, ls orb.LineString, open bool) (orb.MultiLineString
 			}
 			lenTol += 4 * small * float64(len(p))
 		}
+		if open && exactFam && isGraze(p) {
+			if _, listed := kf.Get("C07", knownGrazeKey); !listed {
+				return nil, fmt.Errorf("open option: piece %d %v is the single corner point of a segment that only touches the box there; nothing of it is strictly inside (finding %s, not listed in known_findings.json)", k, p, knownGrazeKey)
+			}
+			pointLike, grazeSeen = true, true
+		}
 		o.popt = append(o.popt, pointLike)
 		gotLen += polyLen(p)
 		nv += len(p)
+	}
+	if grazeSeen {
+		stats.Excluded(knownGrazeKey)
 	}
 	if !o.match(0, 0) {
 		return nil, fmt.Errorf("pieces differ from the exact inside part (open=%v): got %v, want runs %v with end point tolerances %v (point-like below %g)", open, got, o.rv, o.rt, 2*small)
